@@ -1119,6 +1119,37 @@ pub fn run_c15(tier: Tier, budget: Duration, frag: &mut Frag) {
         frag.exhaustive &= !r.capped;
         frag.col.merge(r.col);
     }
+    // feature interactions: every zoo sequence of <= 2 registrations that has a batch and a thread-local system
+    // (top-level or inside a batch): thread-local systems of the top level run only inside wait, on the caller
+    {
+        let zoo = distinct_plans(&Profile::Z { inner_max: 1 }, 2, 1);
+        fn has_tl(ops: &[Op]) -> bool {
+            ops.iter().any(|o| matches!(o, Op::Tl(_)) || matches!(o, Op::Batch(b) if has_tl(&b.inner)))
+        }
+        let mut scs = Vec::new();
+        for p in zoo.iter().filter(|p| p.iter().any(|o| matches!(o, Op::Batch(_))) && has_tl(p)) {
+            for script in ["DW", "DRW", "DXW", "DWDW"] {
+                let mut sc = Scenario::plain(p.clone(), Mode::Async, 0);
+                sc.script = Some(script.to_string());
+                scs.push(sc);
+            }
+        }
+        let t0 = Instant::now();
+        let opts = ExploreOpts { bounds: vec![0, 1], all_points: false, deadline: t0 + budget / 5, max_execs: u64::MAX, keep_traces: 0, deadlock_prop: Some("C15"), delay_mode: true };
+        let r = run_scenarios(&scs, Mon::default(), &opts);
+        frag.parts.push(json!({"engine":"E2 schedmc","scenarios":"feature zoo: every sequence of <= 2 registrations with a batch and a thread-local system (top-level or inner); scripts DW, DRW, DXW, DWDW","n_scenarios":scs.len(),"scenarios_completed":r.completed,"bound_kind":"delay (all deviations)","bounds":[0,1],"schedules":r.executions,"states":r.nodes,"transitions":r.transitions,"deadlocks":r.deadlocks,"cap_hit":r.capped,"wall_s":t0.elapsed().as_secs_f64()}));
+        frag.states += r.nodes;
+        frag.transitions += r.transitions;
+        frag.exhaustive &= !r.capped;
+        // KF1 / KF2 (thread-local systems inside batches) are C12's / C01's business
+        let mut col = Collector::default();
+        for ((p, _), (f, _)) in r.col.best {
+            if p == "C15" || p == "MACHINERY" {
+                col.add(f);
+            }
+        }
+        frag.col.merge(col);
+    }
     // plan shapes: every sequence of 2..4|5 stages, each single-group or two groups wide (code that treats runs of
     // single-group stages, or the stage behind them, differently)
     {
